@@ -189,6 +189,9 @@ var solverCmds = []struct {
 	{"z3", func(f string, sec, seed int) []string {
 		return []string{"z3", fmt.Sprintf("-T:%d", sec), fmt.Sprintf("smt.random_seed=%d", seed), f}
 	}},
+	{"z3-lambda", func(f string, sec, seed int) []string {
+		return []string{"z3", fmt.Sprintf("-T:%d", sec), fmt.Sprintf("smt.random_seed=%d", seed), f}
+	}},
 	{"cvc5", func(f string, sec, seed int) []string {
 		return []string{"cvc5", fmt.Sprintf("--tlimit=%d", sec*1000), fmt.Sprintf("--seed=%d", seed), f}
 	}},
@@ -196,7 +199,7 @@ var solverCmds = []struct {
 
 // runSolvers races the installed solvers on one query file.
 // wantModel: the script contains (get-model) after (check-sat).
-func runSolvers(file string, sec int, seed int, only []string) SolverResult {
+func runSolvers(file, zfile string, sec int, seed int, only []string) SolverResult {
 	start := time.Now()
 	ctx, cancel := context.WithTimeout(context.Background(), time.Duration(sec+2)*time.Second)
 	defer cancel()
@@ -210,6 +213,9 @@ func runSolvers(file string, sec int, seed int, only []string) SolverResult {
 		if len(only) > 0 && !contains(only, sc.name) {
 			continue
 		}
+		if sc.name == "z3-lambda" && zfile == file {
+			continue
+		}
 		n++
 		go func(name string, argv []string) {
 			cmd := exec.CommandContext(ctx, argv[0], argv[1:]...)
@@ -218,7 +224,7 @@ func runSolvers(file string, sec int, seed int, only []string) SolverResult {
 			cmd.Stderr = &buf
 			_ = cmd.Run()
 			ch <- one{name, buf.String()}
-		}(sc.name, sc.argv(file, sec, seed))
+		}(sc.name, sc.argv(pickFile(sc.name, file, zfile), sec, seed))
 	}
 	res := SolverResult{Raw: map[string]string{}}
 	for i := 0; i < n; i++ {
@@ -248,7 +254,7 @@ func runSolvers(file string, sec int, seed int, only []string) SolverResult {
 }
 
 // runSolversAll runs every solver to completion (thorough tier cross-check).
-func runSolversAll(file string, sec int, seed int) map[string]Verdict {
+func runSolversAll(file, zfile string, sec int, seed int) map[string]Verdict {
 	out := map[string]Verdict{}
 	var mu sync.Mutex
 	var wg sync.WaitGroup
@@ -273,7 +279,7 @@ func runSolversAll(file string, sec int, seed int) map[string]Verdict {
 			mu.Lock()
 			out[name] = v
 			mu.Unlock()
-		}(sc.name, sc.argv(file, sec, seed))
+		}(sc.name, sc.argv(pickFile(sc.name, file, zfile), sec, seed))
 	}
 	wg.Wait()
 	return out
@@ -293,4 +299,11 @@ func writeFile(path, content string) error {
 		return err
 	}
 	return os.WriteFile(path, []byte(content), 0o644)
+}
+
+func pickFile(solver, file, zfile string) string {
+	if solver == "z3-lambda" {
+		return zfile // arrays defined by lambdas instead of quantified facts
+	}
+	return file
 }
